@@ -472,6 +472,7 @@ func main() {
 	files = append(files, genSwar(byDir)...)
 	files = append(files, genHelpers(byDir)...)
 	files = append(files, genResets(byDir)...)
+	files = append(files, genTypeAddr(byDir)...)
 	files = append(files, genVmShape(repo, byDir)...)
 	changed := []string{}
 	for _, g := range files {
